@@ -137,6 +137,30 @@ def run(ctx):
         fi = prog.method('Reaction', i, rel=RX)
         compare_pair(ctx, d2, fb, fi)
 
+    # the net-stoichiometry formula  S' = (S_a X_a +- S_b X_b) / -(...)[r],  X' = X_a +- X_b  equals "a and b in parallel" only if both
+    # reactant coefficients are -1; an empty reaction (all-zero stoichiometry) breaks that premise, so BOTH operands must have been
+    # filtered with has_reaction() before the formula is reached
+    for op in ('__add__', '__iadd__', '__sub__', '__isub__'):
+        fo = prog.method('Reaction', op, rel=RX)
+        other = fo.params[1]
+        formula = [n for n in walk_no_nested(fo.node) if isinstance(n, ast.Assign) and isinstance(n.value, ast.BinOp) and isinstance(n.value.op, (ast.Add, ast.Sub))
+                   and 'self._stoichiometry' in src(n.value.left) and '_stoichiometry' in src(n.value.right)]
+        if not formula:
+            d2.fail('Reaction.' + op, 'no-formula', 'net-stoichiometry statement not found', fo, fo.node)
+            continue
+        guards = set()
+        for n in fo.node.body:
+            if n is formula[0]:
+                break
+            if isinstance(n, ast.If):
+                for c in ast.walk(n.test):
+                    if isinstance(c, ast.Call) and isinstance(c.func, ast.Attribute) and c.func.attr == 'has_reaction' and isinstance(c.func.value, ast.Name):
+                        guards.add(c.func.value.id)
+        if {'self', other} <= guards:
+            d2.ok('Reaction.' + op, 'both operands are filtered with has_reaction() before the net-stoichiometry formula', fo, formula[0])
+        else:
+            d2.fail('Reaction.' + op, 'empty-operand-unfiltered', 'the operand %s reaches the net-stoichiometry formula without a has_reaction() test: for an empty reaction the '
+                    'reactant coefficient is 0, not -1, and X\' = X_a +- X_b no longer describes the combined effect' % sorted({'self', other} - guards), fo, formula[0])
     # ---- D3
     item = prog.cls('ReactionItem', RX)
     init = item.methods['__init__']
@@ -151,6 +175,16 @@ def run(ctx):
             d3.ok('ReactionItem.__init__', '%s aliases %s' % (fld, want), init)
         else:
             d3.fail('ReactionItem.__init__', 'alias-' + fld, '%s is %s, expected the parent\'s %s (shared)' % (fld, got, want), init, init.node)
+    # representation: in a ReactionItem `_X` is the parent's ARRAY; only the X property knows the item's own element.  Every method the
+    # item INHERITS from Reaction must therefore read the conversion through self.X, never through self._X
+    base = prog.cls('Reaction', RX)
+    for name, meth in sorted(base.methods.items()):
+        if meth.cls is not base or name in item.methods and item.methods[name].cls is item:
+            continue
+        raw = [n for n in walk_no_nested(meth.node) if isinstance(n, ast.Attribute) and n.attr == '_X' and src(n.value) == 'self' and isinstance(n.ctx, ast.Load)]
+        if raw:
+            d3.fail('Reaction.' + name, 'raw-conversion-in-inherited-method', 'reads self._X; ReactionItem inherits this method and its _X is the conversion array of the whole set', meth, raw[0])
+    d3.ok('Reaction -> ReactionItem', 'no method inherited by ReactionItem reads self._X directly', item.methods['__init__'])
     g = item.methods.get('X')
     s = item.setters.get('X')
     if g is not None and g.cls is item:
